@@ -225,6 +225,9 @@ def pick_off(rng, ab, a_size, rb, rs):
     if rng.chance(1, 3):
         o = rng.choice(sp)
         return max(-w, min(w, o))
+    if rng.chance(1, 12):
+        # far below the output: exercises the cap of the gap loop (carry fixed point)
+        return -(rb * rs) - rng.choice([64, 65, 127, 128, 129, 200, 1000, 70 * ab, 130 * ab + 3])
     return rng.range(-w, w)
 
 
@@ -315,6 +318,8 @@ def gen_random(rng, count):
             w = ab * a_size + 2 * ab
             k = rng.range(0, w) if rng.chance(2, 3) else rng.choice([0, ab, ab - 1, ab + 1, ab * a_size, ab * rs, ab * rs + 1, w])
             k = max(0, min(k, w))
+            if op.startswith("rsh") and rng.chance(1, 12):
+                k = ab * max(rs, a_size) + rng.choice([64, 65, 128, 200, 1000, 70 * ab + 1])
             a = [gen_coef(rng, cls, ab, a_size, False) for _ in range(n)]
             if op.endswith("_assign"):
                 # the scratch area is not the caller's to clean: a dirty scratch (scr != 0) must not matter
@@ -631,6 +636,20 @@ def run(ctx):
                         fails.append((fail_key(c, kind, gap, be), lines[li], iv, {"coefficient": i, "kind": kind, "error_in_units_of_last_limb": e}))
                 if len(ctx.samples) < 8 and li % 977 == 0:
                     ctx.samples.append({"request": lines[li][:300], "implementation": iv[:200], "model": mv[:200]})
+            # C10 on these operations: all back ends that ran the same case (same inputs) agree bit for bit
+            by_case = {}
+            for li, (ci, be) in enumerate(owner):
+                c = cases[ci]
+                fam = "fft64" if (c.big and be.startswith("fft64") and any(abs(x) >= (1 << 63) for cf in c.a for x in cf)) else "all"
+                by_case.setdefault((ci, fam), []).append((be, impl[li].split(" ", 1)[1] if " " in impl[li] else "?", li))
+            nd = 0
+            for (ci, fam), lst in by_case.items():
+                if len({v for _, v, _ in lst}) > 1:
+                    nd += 1
+                    if nd <= 3:
+                        broken.append("correspondence: back ends differ on " + lines[lst[0][2]][:300] + " :: " +
+                                      " / ".join(f"{b}={v[:80]}" for b, v, _ in lst))
+            ctx.cov["backend_mismatches"] = nd
             ctx.cov["per_backend"] = per_be
             ctx.cov["per_op"] = ops_hist
             ctx.cov["exhaustive"] = True
@@ -639,29 +658,6 @@ def run(ctx):
                 "; all digit values in [-2^b, 2^b], all offsets/shift amounts in [-(a_bits+2b), a_bits+2b]"
             ctx.cov["max_error_units_outside_gap_passing_checks"] = max_err["nogap"]
             ctx.cov["max_error_units_in_gap"] = max_err["gap"]
-            # ---- validation of the proposed repair (docs/C08.md): the repaired *model* must satisfy the full
-            # statement on every same-radix gap-region case of this run (oracle on the model's output)
-            rep = [c for c in cases if in_gap(c) and ((c.op == "normalize" and c.p["ab"] == c.p["rb"]) or c.op == "rsh")]
-            rl = []
-            for j, c in enumerate(rep):
-                rl.append(c.line(j, "model").replace(" norm normalize ", " norm normalize_repaired ").replace(" norm rsh ", " norm rsh_repaired "))
-            if rl:
-                rcx, rout, _ = ctx.run_lines(drv, [], rl)
-                bad = 0
-                worst = 0.0
-                for j, c in enumerate(rep):
-                    ov = rout[j].split(" ", 1)[1] if j < len(rout) and " " in rout[j] else "?"
-                    try:
-                        for (_i, kind, e) in oracle(c, "model", parse_col(ov, c.n)):
-                            worst = max(worst, e)
-                            if kind is not None:
-                                bad += 1
-                    except ValueError:
-                        bad += 1
-                ctx.cov["repair_validation"] = {"gap_region_cases_rechecked_on_repaired_model": len(rep), "oracle_failures": bad,
-                                                "max_error_units": worst}
-                if bad:
-                    broken.append(f"repair validation: the repaired model fails the oracle on {bad} gap-region coefficients")
         run_codec(ctx, binp, drv, quick, broken, fails)
 
     # ---- verdicts
